@@ -139,6 +139,7 @@ func errClass(err error) string {
 // Scenario environment
 
 type witness struct {
+	Kind      string `json:"kind,omitempty"` // "" = generated tree, "related", "long"
 	Backend   string `json:"backend"`
 	Transport string `json:"transport"`
 	Scenario  int    `json:"scenario"`
@@ -153,6 +154,7 @@ type witness struct {
 
 type env struct {
 	c         *fw.Ctx
+	kind      string // "" | "related" | "long"
 	backend   string // "local" | "mem"
 	transport string // "inproc" | "tcp"
 	idx       int
@@ -175,6 +177,7 @@ type env struct {
 
 func (e *env) report(op, field, how, what string, w witness) {
 	w.Backend, w.Transport, w.Scenario, w.Endpoint, w.Op = e.backend, e.transport, e.idx, e.epURL, op
+	w.Kind = e.kind
 	if len(what) > 400 {
 		what = strings.ToValidUTF8(what[:400], "") + "..."
 	}
@@ -1068,6 +1071,13 @@ func (e *env) localMutate(op string, srcAbs, dstAbs string, src, dst nameForm, c
 		if op == "Copy" {
 			s := before[sk]
 			exp[dk] = mon.Entry{Dir: s.Dir, Data: s.Data}
+			if s.Dir && (co == nil || !co.NoRecursive) {
+				for k, v := range before {
+					if inSub(k, sk) && k != sk {
+						exp[dk+k[len(sk):]] = mon.Entry{Dir: v.Dir, Data: v.Data}
+					}
+				}
+			}
 		} else {
 			for k, v := range before {
 				if inSub(k, sk) {
@@ -1352,17 +1362,17 @@ func (e *env) buildMem() {
 
 // runScenario builds one tree, serves it, and runs the read phase and the
 // mutator phase through a fresh client.
-func runScenario(c *fw.Ctx, backend, transport string, idx int) {
-	c.Journal(map[string]interface{}{"backend": backend, "transport": transport, "scenario": idx})
+func runScenario(c *fw.Ctx, kind, backend, transport string, idx int) {
+	c.Journal(map[string]interface{}{"kind": kind, "backend": backend, "transport": transport, "scenario": idx})
 	defer c.JournalDone()
-	r := c.Rand("c05-"+backend+"-"+transport, idx)
-	e := &env{c: c, backend: backend, transport: transport, idx: idx, r: r, ctx: context.Background(), statBack: map[string]bool{}}
+	r := c.Rand("c05-"+kind+backend+"-"+transport, idx)
+	e := &env{c: c, kind: kind, backend: backend, transport: transport, idx: idx, r: r, ctx: context.Background(), statBack: map[string]bool{}}
 	e.ep = endpoints[idx%len(endpoints)]
 	big := 0
-	if backend == "local" || idx%3 == 0 {
+	if kind == "" && (backend == "local" || idx%3 == 0) {
 		big = 2
 	}
-	wide := idx%17 == 7
+	wide := kind == "" && idx%17 == 7
 	probes := 0
 	if backend == "mem" {
 		probes = 4
@@ -1408,7 +1418,15 @@ func runScenario(c *fw.Ctx, backend, transport string, idx int) {
 		return
 	}
 	e.cl = cl
-	c.Observe("scenarios", backend+" "+transport+" endpoint=http://h"+e.ep.Suffix, 1)
+	c.Observe("scenarios", strings.TrimSpace(kind+" "+backend+" "+transport+" endpoint=http://h"+e.ep.Suffix), 1)
+	switch kind {
+	case "related":
+		e.relatedPhase()
+		return
+	case "long":
+		e.longPhase()
+		return
+	}
 	rb := listBucket(len(e.t.Nodes))
 	if len(e.t.Nodes) > 100 {
 		rb = ">100 (one collection with 150+ members)"
@@ -1440,23 +1458,35 @@ func run(c *fw.Ctx) {
 	i := 0
 	for k := 0; k < nLocal; k++ {
 		if c.Mine(i) {
-			runScenario(c, "local", "inproc", k)
+			runScenario(c, "", "local", "inproc", k)
 		}
 		i++
 	}
 	for k := 0; k < nMem; k++ {
 		if c.Mine(i) {
-			runScenario(c, "mem", "inproc", k)
+			runScenario(c, "", "mem", "inproc", k)
 		}
 		i++
 	}
 	for k := 0; k < nTCP; k++ {
 		if c.Mine(i) {
-			runScenario(c, "local", "tcp", k)
+			runScenario(c, "", "local", "tcp", k)
 		}
 		i++
 		if c.Mine(i) {
-			runScenario(c, "mem", "tcp", k)
+			runScenario(c, "", "mem", "tcp", k)
+		}
+		i++
+	}
+	for k := 0; k < c.Pick(48, 768); k++ {
+		if c.Mine(i) {
+			runScenario(c, "related", "local", "inproc", k)
+		}
+		i++
+	}
+	for k := 0; k < c.Pick(36, 576); k++ {
+		if c.Mine(i) {
+			runScenario(c, "long", "local", "inproc", k)
 		}
 		i++
 	}
@@ -1467,7 +1497,7 @@ func replay(c *fw.Ctx, raw json.RawMessage) {
 	if json.Unmarshal(raw, &w) != nil || w.Backend == "" {
 		return
 	}
-	runScenario(c, w.Backend, w.Transport, w.Scenario)
+	runScenario(c, w.Kind, w.Backend, w.Transport, w.Scenario)
 }
 
 func init() {
@@ -1481,6 +1511,8 @@ func init() {
 			"Backends: LocalFileSystem on a real directory (reference = os.Lstat/ReadFile/own directory walk; tag and type from LocalFileSystem.Stat called directly) and an in-memory FileSystem with arbitrary tags, MIME types, instants 0001-9999 in random zones and sizes up to 2^62 (reference = the stored FileInfo). " +
 			"Mutator phase: in-memory backend - Mkdir/RemoveAll/Create/Copy (5 option values incl. nil)/Move (3) on existing and missing names under random name forms, oracle = the single mutating call the backend recorded (name, destination, options, bytes); " +
 			"LocalFileSystem - Create/Mkdir/Copy/Move/RemoveAll with every option value, oracle = directory snapshot after the call equals the reference effect applied to the snapshot before, then a full recursive listing through the client equals the directory. " +
+			"Related-name scenarios (LocalFileSystem): groups of siblings in one collection that differ only in letter case (ASCII and non-ASCII), Unicode normalisation, a trailing dot or space, by being byte prefixes of one another, or by being percent-/entity-encoded spellings of one another (fixed groups plus look-alikes derived from a generated name), some present as files, some as collections, some absent; Stat/Open/ReadDir of all, then Create/Mkdir/Copy/Move between random ordered pairs (onto the absent or existing look-alike, or into the look-alike collection under the own name), RemoveAll of one; oracle as for every LocalFileSystem mutator (exactly the named resource changed, the look-alike untouched). " +
+			"Boundary-length scenarios (LocalFileSystem): final components of 200-255 bytes built from 1/2/3/4-byte UTF-8 characters, and one file below a chain of collections giving a host path of about 3800 bytes, each driven through first Create, Stat, Open, second Create onto the existing name, Copy to absent / onto existing / refused by NoOverwrite, Move likewise, Mkdir + Create inside twice + ReadDir + Copy of the collection + RemoveAll, every step with the directory-snapshot oracle and a byte-for-byte read-back. " +
 			"One evaluation = one client operation. distinct_nontrivial = distinct (backend, operation, name form(s), endpoint, set of hostile features in the name).",
 		Assumptions: []string{
 			"names are valid UTF-8 without NUL, '//' or '/./', and never end in '.' or '..' (outside the statement's domain)",
@@ -1492,7 +1524,8 @@ func init() {
 			"a plain file named with a trailing slash ('/f.txt/'): a refusal by server or client is accepted; if Stat/Open succeed, kind, size, time, type, tag and bytes must be what the backend itself answers for that same name (backend's Stat called directly)",
 			"the in-memory backend's Open delivers content in each of four ways the io.Reader contract allows (plain, <=7 bytes per Read, last bytes together with io.EOF, both); every scenario of that backend adds 4 always-readable files whose lengths sit on copy-loop boundaries (0, 1, 6-8, 14, 32 KiB and 64 KiB +-1, 96 KiB, 200000, 256 KiB, 400000)",
 			"return values of mutators (error or nil) are tabulated, not judged: the statement speaks of what reaches the backend",
-			"LocalFileSystem copies of non-empty collections with recursion, and copies/moves onto self, ancestors or descendants, are C01/C02 territory and not issued here",
+			"copies/moves onto self, ancestors or descendants are C01/C02 territory and not issued here",
+			"related-name groups and boundary-length names are first tried on the plain os level outside the served tree: a group the volume does not keep apart (case-folding or normalising volume) and a name the volume itself refuses are skipped and counted, not judged",
 			"relative names are resolved by appending to the endpoint path taken as a collection and removing dot segments (own implementation, independent of path.Join)",
 		},
 		MinEvals:    func(t string) int64 { return map[string]int64{"quick": 20000, "thorough": 500000}[t] },
